@@ -12,7 +12,7 @@ ID = "C08"
 LEVEL = "exploration"
 RULE = (
     "Hypothesis draws wind_dir in [0,360) (floats and the 8 compass points), speed, Monin-Obukhov length of both signs, closure in "
-    "MOST/MOSTM/CONSTANT, z_m in [2,5], roughness-length forcing, a square or oblong grid (32..64 cells per axis, dx 1..5 z_m, "
+    "MOST/MOSTM/CONSTANT, z_m in [2,5], roughness-length forcing or (one case in three) the friction velocity consistent with it, a square or oblong grid (32..64 cells per axis, dx 1..5 z_m, "
     "dy/dx in [0.7,1.4]), halo default or domain/3 (never 0: the plume would wrap around a bare periodic domain), any reference "
     "lat/lon, and a tower placed by latitude/longitude in the central 30 % of the domain. The configuration is built with "
     "parse_config_dict and run with run_bldfm_single (footprint, double; in a quarter of the cases the result examined is the one a second identical call reads back from the Green's-function cache), then once more in the same process with the same met "
@@ -62,6 +62,7 @@ def _case(draw):
         "turn": draw(st.sampled_from([90.0, 135.0, 180.0, 225.0, 270.0])),
         "cached": draw(st.integers(0, 3)) == 0,
         "reorigin": draw(st.integers(0, 2)) == 0,
+        "forcing": draw(st.sampled_from(["z0", "z0", "ustar"])),
     }
 
 
@@ -95,6 +96,17 @@ def check_case(case):
     return out
 
 
+def _ustar_for(case):
+    """Friction velocity consistent with the drawn roughness length through the diabatic log law (Businger-Dyer)."""
+    x = case["zm"] / case["mol"]
+    if x > 0:
+        psi = 5.0 * x
+    else:
+        xi = (1.0 - 16.0 * x) ** 0.25
+        psi = -2.0 * math.log(0.5 * (1 + xi)) - math.log(0.5 * (1 + xi * xi)) + 2.0 * math.atan(xi) - 0.5 * math.pi
+    return 0.4 * case["ws"] / (math.log(case["zm"] / case["z0"]) + psi)
+
+
 def _end_to_end(case, wd, out, primary, base=None):
     import dataclasses
 
@@ -115,7 +127,8 @@ def _end_to_end(case, wd, out, primary, base=None):
     cfg = parse_config_dict({
         "domain": dom, "towers": [{"name": "T", "lat": lat, "lon": lon, "z_m": case["zm"]}],
         # compass directions arrive as integers from YAML (`wind_dir: 270`)
-        "met": {"z0": case["z0"], "mol": case["mol"], "wind_speed": U, "wind_dir": int(wd) if float(wd).is_integer() else wd},
+        "met": dict({"mol": case["mol"], "wind_speed": U, "wind_dir": int(wd) if float(wd).is_integer() else wd},
+                    **({"ustar": _ustar_for(case)} if case.get("forcing") == "ustar" else {"z0": case["z0"]})),
         "solver": {"closure": case["closure"], "footprint": True, "precision": "double"},
     })
     if base is not None:
